@@ -19,6 +19,9 @@
 #ifndef VF_OPS
 #define VF_OPS 4
 #endif
+#ifndef VF_TOUCH
+#define VF_TOUCH 0
+#endif
 #ifndef VF_MAXSLABS
 #define VF_MAXSLABS 2
 #endif
@@ -45,9 +48,11 @@ static void on_alloc(char* p) {
   }
   g_events++;
   g_live[g_nlive++] = p;
+#if VF_TOUCH
   // the block is usable memory: first and last byte
   p[0] = 1;
   p[kN - 1] = 2;
+#endif
 }
 
 static void do_dealloc(uint32_t idx) {
